@@ -1291,3 +1291,25 @@ func (s *Sim) DiffSnap(snap *Snapshot) []string {
 	sort.Strings(out)
 	return out
 }
+
+// NewSimOn creates a chain on a prepared network with explicit genesis allocations (real magnitudes).
+func NewSimOn(p Params, net *consensus.Network, sc []types.SiacoinOutput, sf []types.SiafundOutput) *Sim {
+	k := p.Keyring
+	if k == nil {
+		k = NewKeyring()
+	}
+	s := &Sim{P: p, K: k, Net: net, Store: newStore(), blockID: map[int]types.BlockID{}, real: map[SID][32]byte{}}
+	gtx := types.Transaction{SiacoinOutputs: sc, SiafundOutputs: sf}
+	s.Gen = types.Block{Timestamp: GenesisTime, Transactions: []types.Transaction{gtx}}
+	cs, au := consensus.ApplyBlock(net.GenesisState(), s.Gen, consensus.V1BlockSupplement{Transactions: make([]consensus.V1TransactionSupplement, 1)}, time.Time{})
+	s.CS = cs
+	registerV1(s.real, 0, 0, gtx)
+	s.blockID[0] = s.Gen.ID()
+	s.applyDiffs(au)
+	return s
+}
+
+// SortedIDs returns the keys of an element map in a fixed order (so that seeded runs are reproducible).
+func SortedIDs[K ~[32]byte, V any](m map[K]V) []K {
+	return sortedKeys(m, func(a, b K) bool { return bytes.Compare(a[:], b[:]) < 0 })
+}
